@@ -281,8 +281,8 @@ def c07(cx, str_call_tokens=None):
             want = unquote("quoted", text, '"')
         elif name == "MacroString" and i in strtok:
             want = unquote("str", text)
-        elif name == "StringExprEnd" and text and not text.startswith('"'):
-            # unterminated: trailing text
+        elif name == "StringExprEnd" and text and "UnterminatedStringLiteral" in errs_at.get(cx.tok_end(i), ()) and cx.tok_end(i) == cx.n:
+            # unterminated string expression: the token is the trailing text up to end of input
             want = unquote("quoted", text, '"')
         else:
             if t.payload and t.payload[0] == "S":
@@ -893,4 +893,83 @@ def glue_check(ca, cb, cab, tables):
         we.append((e.kind, e.byte + nb, e.char + nc, e.line + nl, col, last))
     if we != sig_errors(cab):
         out.append(f"errors differ: want {we[:4]} got {sig_errors(cab)[:4]}")
+    return out
+
+
+# ------------------------------------------------------------------ C12 / C13 / C14 (grammar programs)
+
+
+def c12(cx):
+    out = []
+    c = cx.c
+    for e in c.errs:
+        out.append(f"error {cx.t.ek_name.get(e.kind)} at {e.byte} in a well-formed program")
+        break
+    if c.end and (c.end["modes"] != "[Default]" or c.end["mnl"] != 0 or c.end["cp"] != 0 or c.end["ps"] not in ("0", "1")):
+        out.append(f"residual state at end of program: {c.end}")
+    return out
+
+
+def c13(cx, ann):
+    """ann: [(byte offset, byte length, tag)]"""
+    out = []
+    c = cx.c
+    N = cx.t.tt_name
+    by_start = {}
+    for i, t in enumerate(c.toks):
+        if cx.tok_end(i) > t.byte:
+            by_start.setdefault(t.byte, []).append(i)
+    DELIMS = {"COMMA", "ASSIGN", "SEMI", "LPAREN", "RPAREN"}
+    for off, ln, tag in ann:
+        idxs = by_start.get(off, [])
+        if tag[0] == "D":
+            ok = any(N.get(c.toks[i].type) == tag[1] and cx.tok_end(i) - off == ln for i in idxs)
+            if not ok:
+                got = [(N.get(c.toks[i].type), cx.text(i)[:12]) for i in idxs]
+                out.append(f"delimiter {tag[1]} at {off} is not a token (found {got})")
+        elif tag[0] == "I":
+            if not any(N.get(c.toks[i].type) == "IntegerLiteral" and cx.tok_end(i) - off == ln for i in idxs):
+                out.append(f"integer operand at {off} is not an IntegerLiteral token")
+        elif tag[0] == "N":
+            if any(N.get(c.toks[i].type) in DELIMS and c.toks[i].chan == 0 for i in idxs):
+                out.append(f"nested/quoted character at {off} became a delimiter token")
+        elif tag[0] == "G":
+            # every byte of the gap lies in a hidden WS token or a comment-channel CStyleComment token
+            import bisect
+            starts = [t.byte for t in c.toks]
+            pos = off
+            end = off + ln
+            okg = True
+            while pos < end:
+                k = bisect.bisect_right(starts, pos) - 1
+                # skip zero-width tokens at the same offset
+                while k + 1 < len(c.toks) and cx.tok_end(k) <= pos:
+                    k += 1
+                t = c.toks[k]
+                nm = N.get(t.type)
+                if not ((nm == "WS" and t.chan == 1) or (nm == "CStyleComment" and t.chan == 2)) or cx.tok_end(k) <= pos:
+                    okg = False
+                    break
+                pos = cx.tok_end(k)
+            if not okg:
+                out.append(f"gap at {off}..{end} is not covered by hidden whitespace/comment tokens")
+        if len(out) >= 3:
+            break
+    return out
+
+
+def c14(cx, off, toktype, errkind, min_off=0):
+    """off None: the error may sit anywhere at or after min_off, but must coincide with its recovery token"""
+    out = []
+    c = cx.c
+    T = cx.t
+    ek = T.ek.get(errkind)
+    tt = T.T(toktype)
+    cands = [e.byte for e in c.errs if e.kind == ek and (e.byte == off if off is not None else e.byte >= min_off)]
+    if not cands:
+        got = [(T.ek_name.get(e.kind), e.byte) for e in c.errs][:4]
+        out.append(f"no {errkind} at {off if off is not None else '>=' + str(min_off)} (errors: {got})")
+        return out
+    if not any(t.type == tt and t.byte in cands and cx.tok_end(i) == t.byte and i + 1 < len(c.toks) for i, t in enumerate(c.toks)):
+        out.append(f"no zero-width {toktype} recovery token at {cands[:3]}")
     return out
